@@ -110,6 +110,15 @@ Quiescent == \A t \in Threads : ~CanStep(t)
 Next == IF Gen THEN Internal \/ (Quiescent /\ Controllable) ELSE Internal \/ Controllable
 Spec == Init /\ [][Next]_vars
 
+\* Progress, as temporal properties: with goroutines that keep running (weak fairness of their steps), a transport
+\* that completes every write and user code that returns, every call returns -- except a receive that waits for
+\* a message on a stream that is still open, and the reader's delivery that waits for a receiver (flow control).
+LiveSpec == Init /\ [][Next]_vars /\ WF_vars(Internal) /\ WF_vars(RelW("ok")) /\ WF_vars(RelU)
+WaitsForPeer(t) == /\ str.sig.term = U
+                   /\ \/ thr[t].pc \in {"mr.get", "hp.put1", "hp.put3"}
+                      \/ thr[t].pc = "mr.rlock" /\ \E u \in Threads : thr[u].pc = "mr.get"    \* queued behind a receive that waits
+CallsReturn == \A t \in Threads : [](Busy(t) => <>(~Busy(t) \/ WaitsForPeer(t)))
+
 (* ----------------------------- observation ------------------------------- *)
 FrameStr(f) == f.kind \o "/" \o ToString(f.mid) \o (IF f.done THEN "d" ELSE "-") \o (IF f.ctl THEN "c" ELSE "-") \o "/" \o f.tag
 ThrObs(t) == CASE thr[t].pc = "idle" -> "idle"
